@@ -253,6 +253,7 @@ def main():
     ap.add_argument('--max-checks', type=int, default=18)
     ap.add_argument('--list', action='store_true')
     ap.add_argument('--only', default='', help='comma separated mutant ids')
+    ap.add_argument('--props', default='', help='run exactly these checks, in this order')
     ap.add_argument('--skip-done', default='', help='jsonl of an earlier run: skip its mutant ids')
     ap.add_argument('--tests-only', type=int, default=0, metavar='JOBS',
                     help='phase 1: only run the repository tests against every mutant, JOBS in parallel')
@@ -318,6 +319,8 @@ def main():
                         first = [p for i, p in enumerate(first) if p not in first[:i]]
                         order = first + [p for p in ALL if p not in first]
                         order = order[:a.max_checks]
+                        if a.props:
+                            order = a.props.split(',')
                         rec['status'] = 'survived'
                         rec['ran'] = []
                         for pid in order:
